@@ -192,8 +192,16 @@ def rule_res5(prog):
             good = [c for c in guard if _is_labels_of(c.args[1], K)]
             r.inst(function=f.short(), returns=repr(v)[:80],
                    guards=[repr(c)[:120] for c in guard])
+            opaque = (isinstance(v, Sym) and v.meta and
+                      v.meta[0] in ('elem', 'next')) or (
+                          isinstance(v, App) and v.op in ('call', 'mcall'))
             if good:
                 r.ok()
+            elif opaque and not guard:
+                # the name is taken from an iterator / call whose filtering
+                # is outside the interpreted fragment: no verdict
+                raise Inconclusive('R-RES-5', 'the name returned by %s is '
+                                   '%r' % (f.short(), v), f.where())
             else:
                 r.fail(Finding(
                     PROP, 'R-RES-5', f.where(), f.short(), 'unguarded-name',
